@@ -14,7 +14,12 @@ Kind(nm, n, b) == [name |-> nm, mtime |-> <<49, 52, 51, 51, 49, 53, 51, 49, 50, 
 \* the same member with every numeric column filled to its width (timestamps after 2038, 6-digit ids)
 BigKind(nm, n) == [Kind(nm, n, FALSE) EXCEPT !.mtime = <<57, 57, 57, 57, 57, 57, 57, 57, 57, 57, 57, 57>>,
                                              !.uid = <<57, 57, 57, 57, 57, 57>>, !.gid = <<50, 49, 52, 55, 52, 56>>]
-Kinds == {Kind(nm, n, b) : nm \in Names, n \in Sizes, b \in BOOLEAN} \cup {BigKind(nm, n) : nm \in {<<97>>, DB}, n \in {0, 1}}
+\* one numeric column blank, the ones after it filled (a blank column is read as 0; it says nothing about the others)
+PartKinds == {[Kind(<<97>>, n, FALSE) EXCEPT !.mtime = <<>>, !.uid = <<49, 48, 48, 48>>, !.gid = <<49, 48, 48>>] : n \in {0, 1}}
+             \cup {[Kind(<<97>>, n, FALSE) EXCEPT !.uid = <<>>, !.gid = <<49, 48, 48>>] : n \in {0, 1}}
+             \cup {[Kind(<<97>>, n, FALSE) EXCEPT !.gid = <<>>] : n \in {0, 1}}
+             \cup {[Kind(<<97>>, n, FALSE) EXCEPT !.mtime = <<>>, !.gid = <<>>, !.uid = <<55>>] : n \in {0, 1}}
+Kinds == {Kind(nm, n, b) : nm \in Names, n \in Sizes, b \in BOOLEAN} \cup {BigKind(nm, n) : nm \in {<<97>>, DB}, n \in {0, 1}} \cup PartKinds
 Models == UNION {[1..k -> Kinds] : k \in 0..MaxMembers}
 FitsGnu(ms) == \A k \in 1..Len(ms) : Len(ms[k].name) <= 15
 
